@@ -219,30 +219,30 @@ def parse_obs(step):
 def oracle(h, obs):
     """The property, on the implementation's observations only.  Returns None or (step index, reason)."""
     if obs is None:
-        return (0, 'no observation (probe crashed)')
+        return (0, 'no observation (probe crashed)', 'crash')
     steps = obs.split(' ; ')
     if len(steps) != len(h.ops):
-        return (len(steps), f'history stopped after {len(steps)} of {len(h.ops)} operations: {steps[-1][:80]}')
+        return (len(steps), f'history stopped after {len(steps)} of {len(h.ops)} operations: {steps[-1][:80]}', 'stopped')
     cur = dict(h.init)
     cur = {v: stored(ty_of_var(v), x) for v, x in cur.items()}
     pre = {v: None for v in h.vars}
     for k, (st, (kind, v, x)) in enumerate(zip(steps, h.meta)):
         po = parse_obs(st)
         if po is None:
-            return (k, 'unparsable observation ' + st[:60])
+            return (k, 'unparsable observation ' + st[:60], 'unparsable')
         out, vals, _ = po
         for w, val in vals.items():
             if '/' in val:
-                return (k, f'{w}: direct read and accessor disagree ({val})')
+                return (k, f'{w}: direct read and accessor disagree ({val})', 'readers-disagree')
         exp = dict(cur)
         if kind in ('look', 'lookbad'):
             if kind == 'look' and out != 'ok':
-                return (k, f'lookup of {v} failed: {out}')
+                return (k, f'lookup of {v} failed: {out}', 'lookup-failed')
             if kind == 'lookbad' and not out.startswith('panic:'):
-                return (k, 'a lookup that cannot succeed did not fail')
+                return (k, 'a lookup that cannot succeed did not fail', 'lookup-not-rejected')
         elif kind in ('set', 'apply'):
             if out != 'ok':
-                return (k, f'{h.ops[k]}: a well-typed value was not set ({out})')
+                return (k, f'{h.ops[k]}: a well-typed value was not set ({out})', f'{kind}-rejected:{out}')
             exp[v] = stored(ty_of_var(v), x)
             if pre[v] is None:
                 pre[v] = cur[v]
@@ -251,19 +251,20 @@ def oracle(h, obs):
             if out.startswith('ok'):
                 t = ty_of_var(v)
                 if x != 'nil' or not (t in IFACE or t in NILABLE):
-                    return (k, f'{h.ops[k]}: a value that is not assignable to {v} was accepted ({out})')
+                    return (k, f'{h.ops[k]}: a value that is not assignable to {v} was accepted ({out})', 'bad-value-accepted')
                 exp[v] = 'nil' if t in IFACE else f'{t}:0'
                 if pre[v] is None:
                     pre[v] = cur[v]
         elif kind == 'cancel':
             if out != 'ok':
-                return (k, f'{h.ops[k]} (variable {v}, {"mocked" if pre[v] is not None else "not mocked"}): Cancel must not fail ({out})')
+                st8 = "mocked" if pre[v] is not None else "not mocked"
+                return (k, f'{h.ops[k]} (variable {v}, {st8}): Cancel must not fail ({out})', f'cancel-fails:{out}:{st8}')
             if pre[v] is not None:
                 exp[v] = pre[v]
                 pre[v] = None
         elif kind == 'reset':
             if out != 'ok':
-                return (k, f'{h.ops[k]}: Reset must not fail ({out})')
+                return (k, f'{h.ops[k]}: Reset must not fail ({out})', f'reset-fails:{out}')
             for w in v:
                 if pre[w] is not None:
                     exp[w] = pre[w]
@@ -271,11 +272,13 @@ def oracle(h, obs):
         elif kind == 'write':
             exp[v] = stored(ty_of_var(v), x)
         if kind in ('set', 'apply') and out.startswith('ok-callback'):
-            return (k, 'the Apply callback must run exactly once: ' + out)
+            return (k, 'the Apply callback must run exactly once: ' + out, 'callback-count')
         for w in h.vars:
             if vals.get(w) != exp[w]:
                 why = {'cancel': 'after Cancel', 'reset': 'after Reset', 'set': 'after Set', 'apply': 'after Apply'}.get(kind, f'after {kind}')
-                return (k, f'{w} holds {vals.get(w)} {why} (`{h.ops[k]}`), the property demands {exp[w]}')
+                what = ('restore' if kind in ('cancel', 'reset') and exp[w] != cur[w] else 'take-effect' if kind in ('set', 'apply') and w == v
+                        else 'untouched')
+                return (k, f'{w} holds {vals.get(w)} {why} (`{h.ops[k]}`), the property demands {exp[w]}', f'{what}:{kind}')
         cur = exp
     return None
 
@@ -431,16 +434,16 @@ def run(tier):
     bad.sort(key=lambda b: len(b[0].ops))
     seen = set()
     for h, ob, why, which in bad:
-        cls = why[1].split(':')[-1][:40] if 'must not fail' in why[1] else why[1].split('(')[0][-40:]
-        kindkey = (h.meta[why[0]][0] if why[0] < len(h.meta) else '?', 'fail' if 'fail' in why[1] or 'not set' in why[1] else 'value')
-        if kindkey in seen or len(seen) >= 4:
+        if why[2] in seen or len(seen) >= 5:
             continue
-        seen.add(kindkey)
+        seen.add(why[2])
         stripped = which == 'stripped'
+        cls0 = why[2]
 
-        def failing(c, stripped=stripped):
+        def failing(c, stripped=stripped, cls0=cls0):
             im, _ = run_impl(build_probe('c08-var-stripped' if stripped else 'c08-var', '-s -w' if stripped else '-s=false'), [c.line()], 'c08-shrink')
-            return oracle(c, im[0]) is not None
+            w = oracle(c, im[0])
+            return w is not None and w[2] == cls0
         try:
             small = shrink(h, failing) if len(h.ops) <= 40 else h
         except Exception:
@@ -452,7 +455,7 @@ def run(tier):
             im = [ob]
         out.violation(f'{small.line()}: step {w2[0]}: {w2[1]}',
                       {'kind': 'impl-oracle', 'ops': [small.line()], 'meta': small.meta, 'vars': small.vars, 'init': small.init, 'stripped': stripped,
-                       'observed': im[0], 'why': w2[1], 'step': w2[0], 'how': 'python3 check.py C08 --replay <this file>'})
+                       'observed': im[0], 'why': w2[1], 'step': w2[0], 'class': w2[2], 'how': 'python3 check.py C08 --replay <this file>'})
     # 2. correspondence
     diffs = []
     if model is None:
